@@ -178,6 +178,8 @@ def build(desc):
             fluid = FlowProperties(tab, desc["p_i"])
     res = SinglePhaseReservoir(desc["nx"], desc["p_f"], desc["p_i"], fluid)
     lo, _ = tables.pressure_range(tab)
+    if desc.get("reused"):
+        res = reused_object(SinglePhaseReservoir, desc["nx"], tab, fluid, desc["p_f"], desc["p_i"])
     sched = make_schedule(desc.get("schedule"), len(time), desc["p_f"], desc["p_i"], lo)
     if sched is not None and desc.get("sched_as") == "list":
         sched = [float(v) for v in sched]
@@ -204,6 +206,26 @@ def _build_twophase(desc, time):
         fluid = FlowPropertiesTwoPhase.from_table(pd.DataFrame(cols), df_kr, {"rho_o0": 50.0, "rho_g0": 0.06, "rho_w0": 62.4}, 0.1, Sw, desc["p_i"])
     res = TwoPhaseReservoir(desc["nx"], desc["p_f"], desc["p_i"], fluid, Sw)
     return res, time, None, fluid, tab
+
+
+def reused_object(K, nx, tab, fluid, p_f, p_i):
+    """An object that has already been simulated with ANOTHER fluid wrapper (same table, other
+    initial pressure) and whose public fields were then re-assigned: the only way to change the
+    initial pressure of an existing reservoir. Whatever it cached must not survive."""
+    from bluebonnet.flow import FlowProperties
+
+    lo, hi = tables.pressure_range(tab)
+    p_other = float(min(hi, max(lo + 0.35 * (hi - lo), 0.62 * p_i + 0.3 * lo)))
+    with warnings.catch_warnings(), np.errstate(all="ignore"):
+        warnings.simplefilter("ignore")
+        other = FlowProperties(tab, p_other)
+        res = K(nx, max(lo, 0.5 * p_other), p_other, other)
+        res.simulate(np.array([0.0, 0.01, 0.05, 0.2]))
+        res.recovery_factor()
+    res.fluid = fluid
+    res.pressure_initial = p_i
+    res.pressure_fracface = p_f
+    return res
 
 
 def simulate(res, time, sched):
@@ -252,6 +274,7 @@ def random_sim_desc(rng, tier, single_share=0.75, consistent_only=False, schedul
         d["schedule"] = None
     if fam == "uniform" and rng.random() < 0.3:
         d["grid"]["integer"] = True
+    d["reused"] = bool(rng.random() < 0.15 and not d["alpha_branch"])
     if twophase_share and rng.random() < twophase_share:
         # the two-phase class on a from_table fluid (multiphase diffusivity, user-alpha branch)
         Sw = float(rng.choice([0.1, 0.2]))
